@@ -144,6 +144,21 @@ def rule_dispatch_table(col, facts):
             for suffix, label in names.items():
                 if cn.endswith("::" + suffix):
                     tg[bb] = label
+        if not tg:
+            # the dispatch may have been extracted into a helper of the same crate (`write_finite(..)`): the unique
+            # callee that holds the back-end calls is read in its place
+            cands = []
+            for _bb, c, _a, _d, _t in f.calls():
+                for h in facts.by_short.get(callee_name(c), []):
+                    if h.crate == f.crate and h.short != f.short and any(callee_name(c2).endswith("::" + sfx) for _b2, c2, _a2, _d2, _t2 in h.calls() for sfx in names):
+                        cands.append(h)
+            if len({h.short for h in cands}) == 1:
+                f = cands[0]
+                for bb, c, a, d, t in f.calls():
+                    cn = callee_name(c)
+                    for suffix, label in names.items():
+                        if cn.endswith("::" + suffix):
+                            tg[bb] = label
         col.check(R, last_seg(fname) + ":backends", bool(tg), "no back-end call found", f.loc())
         if not tg:
             continue
